@@ -335,40 +335,8 @@ impl TextSelection {
     /// Converts a relative offset, expressed in the coordinates of this text selection, to an absolute one
     /// expressed in the coordinates of the resource.
     pub fn absolute_offset(&self, offset: &Offset) -> Result<Offset, StamError> {
-        let textlen = self.end() - self.begin();
-        let begin = Cursor::BeginAligned(
-            self.begin()
-                + match offset.begin {
-                    Cursor::BeginAligned(x) => x,
-                    Cursor::EndAligned(x) => {
-                        if textlen < x.abs() as usize {
-                            return Err(StamError::CursorOutOfBounds(
-                                offset.begin,
-                                "(textselection_by_offset)",
-                            ));
-                        } else {
-                            textlen - (x.abs() as usize)
-                        }
-                    }
-                },
-        );
-        let end = Cursor::BeginAligned(
-            self.begin()
-                + match offset.end {
-                    Cursor::BeginAligned(x) => x,
-                    Cursor::EndAligned(x) => {
-                        if textlen < x.abs() as usize {
-                            return Err(StamError::CursorOutOfBounds(
-                                offset.end,
-                                "(textselection_by_offset)",
-                            ));
-                        } else {
-                            textlen - (x.abs() as usize)
-                        }
-                    }
-                },
-        );
-        Ok(Offset::new(begin, end))
+        let textselection = self.textselection_by_offset(offset)?;
+        Ok(Offset::simple(textselection.begin(), textselection.end()))
     }
 
     /// Resolves a relative cursor to a relative begin aligned cursor, resolving all end-aligned positions
@@ -397,14 +365,32 @@ impl TextSelection {
     /// Low-level method to get a textselection inside the current one
     /// Note: this is a low level method and will always return an unbound textselection!
     pub fn textselection_by_offset(&self, offset: &Offset) -> Result<TextSelection, StamError> {
+        let textlen = self.end() - self.begin();
         let (begin, end) = (
-            self.begin + self.beginaligned_cursor(&offset.begin)?,
-            self.begin + self.beginaligned_cursor(&offset.end)?,
+            self.beginaligned_cursor(&offset.begin)?,
+            self.beginaligned_cursor(&offset.end)?,
         );
+        if begin > textlen {
+            return Err(StamError::CursorOutOfBounds(
+                offset.begin,
+                "Begin cursor is out of bounds",
+            ));
+        } else if end > textlen {
+            return Err(StamError::CursorOutOfBounds(
+                offset.end,
+                "End cursor is out of bounds",
+            ));
+        } else if end < begin {
+            return Err(StamError::InvalidOffset(
+                offset.begin,
+                offset.end,
+                "End must be greater than begin",
+            ));
+        }
         Ok(TextSelection {
             intid: None,
-            begin,
-            end,
+            begin: self.begin + begin,
+            end: self.begin + end,
         })
     }
 
